@@ -704,8 +704,10 @@ def rule_encodeall(ctx):
                 is_book = a.op == "sub" and book_of(a.a[0]) is not None
                 good = good and (is_enc or is_cache or is_book)
             conds = [tm.show(c, 2) for c, _ in symeval.pc_conds(m.pc)]
+            forms_ok = good
             good = good and not conds
-            if not good and any(z.op == "call" and call_name(z) == "chord.encode" for z in tm.walk(m.val)) and not any(is_lit(a_) for a_ in alts):
+            # (a store of a recognised encode() component under a label-dependent condition is a definite bypass)
+            if not good and not forms_ok and any(z.op == "call" and call_name(z) == "chord.encode" for z in tm.walk(m.val)) and not any(is_lit(a_) for a_ in alts):
                 # built from encode() results through plumbing this rule has no form for (integer codes and a gather,
                 # ...): not by itself a label that bypasses encode() - unless another store is a definite bypass
                 unread.append("output %s is filled from encode() results through %s" % (root, tm.show(m.val, 3)))
